@@ -6,6 +6,7 @@
 import LpModel.C13
 import Mathlib.Tactic.Ring
 import Mathlib.Tactic.Linarith
+import Mathlib.Tactic.NormNum
 import Mathlib.Algebra.Order.AbsoluteValue.Basic
 namespace Lp.C13
 
@@ -255,6 +256,15 @@ theorem checkLimits_spec (a b : Rat) :
 /-- `Find_Epsilon` is `precision` times Simpson's three-point estimate -/
 theorem findEpsilon_spec (f : Rat → Rat) (a b pr : Rat) :
     findEpsilon f a b pr = pr * ((b - a) / 6 * (f a + 4 * f ((a + b) / 2) + f b)) := rfl
+
+/-- the "Adaptive-Simpson" branch asks for `1e-10 ·` (Simpson's three-point estimate) (fix ad02385), so
+    that four times the request — the bound C03 proves — is `4e-10` of the coarse estimate -/
+theorem adaptiveSimpson_request (S : (Rat → Rat) → Rat → Rat → Rat → Rat) (f : Rat → Rat) (a b : Rat) :
+    adaptiveSimpsonBranch S f a b
+      = S f a b (1 / (10 : Rat) ^ 10 * ((b - a) / 6 * (f a + 4 * f ((a + b) / 2) + f b))) ∧
+    4 * simpsonPrecision < 1 / (10 : Rat) ^ 9 := by
+  refine ⟨rfl, ?_⟩
+  unfold simpsonPrecision; norm_num
 
 /-- method-parameter defaults: 5 (`max_depth`) and 30 (`evaluation_points`) -/
 theorem effParam_defaults : effParam .gaussKronrod 0 = 5 ∧ effParam .gaussLegendre2 0 = 30 ∧
